@@ -57,8 +57,16 @@ def safe_run(mod, case):
     try:
         return mod.run_impl(case)
     except Exception as e:  # an exception escaping the driver is itself an observable
-        return {"__exception__": type(e).__name__, "__msg__": str(e)[:300],
-                "__tb__": traceback.format_exc()[-1500:]}
+        out = {"__exception__": type(e).__name__, "__msg__": str(e)[:300], "__tb__": traceback.format_exc()[-1500:]}
+        # raised by the harness' own code (not inside the library): the harness no longer fits the code (a renamed attribute, a changed
+        # signature): that breaks the correspondence, it is not an input on which the property fails
+        tb = e.__traceback__
+        while tb is not None and tb.tb_next is not None:
+            tb = tb.tb_next
+        if tb is not None and os.path.abspath(tb.tb_frame.f_code.co_filename).startswith(os.path.join(ROOT, "harness")) \
+           and type(e).__name__ in ("AttributeError", "TypeError", "ImportError", "NameError", "KeyError"):
+            out["__harness__"] = True
+        return out
 
 
 def _worker(args):
@@ -222,11 +230,17 @@ def run_check(mod, tier, seed):
     # ---- oracle verdicts
     known_hits = collections.Counter()
     new_fail = []
+    harness_errs = []
     for i, (c, (obs, fails)) in enumerate(zip(cases, results)):
+        if isinstance(obs, dict) and obs.get("__harness__"):
+            harness_errs.append(("run_impl", "case %d: %s" % (i, obs.get("__tb__", "")[-1200:])))
+            continue
         for f in fails:
             k = is_known(known, f)
             if k:
                 known_hits[(f.get("site"), f.get("pattern"))] += 1
+            elif f.get("clause") == "oracle-crashed":
+                harness_errs.append(("oracle", "case %d: %s" % (i, str(f.get("detail"))[-1200:])))
             else:
                 new_fail.append((i, f))
     for (site, pat), cnt in sorted(known_hits.items()):
@@ -261,6 +275,7 @@ def run_check(mod, tier, seed):
             continue
         # a mismatch on a case whose only oracle failures are known findings is still a mismatch:
         corr_only.append((i, k))
+    cerrs = list(cerrs) + harness_errs[:3]
     if cerrs:
         path = write_replay(pid, "correspondence_broken", dict(seed=seed, tier=tier, errors=cerrs[:3],
                             theorem_or_correspondence="cases files of %s do not evaluate" % pid))
